@@ -2,7 +2,8 @@
 import GoNeat.Driver.Genetics
 import GoNeat.Driver.Operators
 import GoNeat.Driver.Population
+import GoNeat.Driver.Activations
 
 namespace GoNeat.Driver
-def allOps : List (String × Handler) := geneticsOps ++ operatorOps ++ populationOps
+def allOps : List (String × Handler) := geneticsOps ++ operatorOps ++ populationOps ++ activationsOps
 end GoNeat.Driver
